@@ -40,6 +40,8 @@ func (c LoadConfig) String() string {
 
 // Program is the resolved program all rules work on.
 type Program struct {
+	guardMemo map[*ssa.Function]map[factKind][]guardFact
+	guardBusy map[*ssa.Function]bool
 	mapTables map[*ssa.Global]map[string]AVal
 	RepoDir   string
 	Config    LoadConfig
